@@ -791,6 +791,44 @@ func runC16(c *harness.Case) {
 				c.Stat("ranges_failed_by_the_transient_iterator_error", 1)
 			}
 		}
+		// the same for the point read behind a single-key Range and behind a guarded update whose expectation is stale:
+		// the first step of the next iterator fails once. An error is an answer; "the key does not exist" is not.
+		if live := e.m.SortedKeys(); len(live) > 0 && c.R.Verdict != "violated" {
+			key := live[r.Intn(len(live))]
+			want := e.m.At(key, n.Committed())
+			arm := func() *int32 {
+				var fired int32
+				iw.IterFault = func(start, end []byte, k int) error {
+					if k == 0 && atomic.CompareAndSwapInt32(&fired, 0, 1) {
+						return errors.New("injected transient iterator error")
+					}
+					return nil
+				}
+				return &fired
+			}
+			f1 := arm()
+			resp, err := e.api.Range(context.Background(), &etcdserverpb.RangeRequest{Key: []byte(key)})
+			iw.IterFault = nil
+			e.hist = append(e.hist, fmt.Sprintf("get(%q) with a transient error on the first iterator step -> %s err=%v", key, kvDesc(resp.GetKvs()), err))
+			if err == nil && want != nil && atomic.LoadInt32(f1) == 1 {
+				if len(resp.Kvs) != 1 || !bytes.Equal(resp.Kvs[0].Value, want.Val) || resp.Kvs[0].ModRevision != int64(want.Rev) {
+					c.Violatef("C16 point-read-differs-from-etcd after-transient-iterator-error", e.wit(), "Range(%q) whose point read met a transient iterator error answered %s without an error; etcd semantics give %s", key, kvDesc(resp.Kvs), verS(want))
+				}
+			}
+			if want != nil && c.R.Verdict != "violated" {
+				f2 := arm()
+				tr, terr := e.api.Txn(context.Background(), etcdUpdate(key, []byte("never-written"), int64(want.Rev)+1000))
+				iw.IterFault = nil
+				kvs, _ := rangeKvs(tr)
+				e.hist = append(e.hist, fmt.Sprintf("update(%q, expecting %d: stale) with a transient error on the first iterator step -> succeeded=%v %s err=%v", key, want.Rev+1000, tr.GetSucceeded(), kvDesc(kvs), terr))
+				if terr == nil && atomic.LoadInt32(f2) == 1 {
+					if tr.Succeeded || len(kvs) != 1 || !bytes.Equal(kvs[0].Value, want.Val) || kvs[0].ModRevision != int64(want.Rev) {
+						c.Violatef("C16 failed-compare-differs-from-etcd after-transient-iterator-error", e.wit(), "a guarded update of %q with a stale expectation whose read met a transient iterator error answered succeeded=%v kvs=%s without an error; etcd semantics give succeeded=false and %s", key, tr.Succeeded, kvDesc(kvs), verS(want))
+					}
+				}
+				c.Stat("point_reads_with_a_transient_iterator_error", 2)
+			}
+		}
 	}
 	c.Stat("etcd_requests", int64(len(e.hist)))
 	c.Stat("unsupported_shapes_sent", int64(e.nUnsup))
